@@ -235,6 +235,9 @@ class Object3d:
         obj._data = data[np.sort(idx)]
         # Indices into the flattened data, zero-entries included
         idx = np.flatnonzero(is_nonzero)[idx]
+        # The unique entries are kept in order of first appearance, not
+        # in the sorted order the inverse from np.unique() refers to
+        inv = np.argsort(np.argsort(idx))[inv]
         if return_index and return_inverse:
             return obj, idx, inv
         elif return_index and not return_inverse:
